@@ -511,7 +511,7 @@ pub fn mk_config(prefix: &str) -> Config {
 }
 
 /// files of the given config prefix by kind (service-level kinds only)
-pub fn list_files(prefix: &str) -> String {
+pub fn list_files(prefix: &str, node_dirs: &[String]) -> String {
     let mut counts: BTreeMap<String, usize> = Default::default();
     let mut scan = |dir: &std::path::Path| {
         if let Ok(rd) = std::fs::read_dir(dir) {
@@ -528,24 +528,20 @@ pub fn list_files(prefix: &str) -> String {
     };
     scan(std::path::Path::new("/dev/shm"));
     scan(std::path::Path::new(&format!("{}/services", root_dir())));
-    if let Ok(rd) = std::fs::read_dir(format!("{}/nodes", root_dir())) {
-        for e in rd.flatten() {
-            if e.path().is_dir() {
-                scan(&e.path());
-            }
-        }
+    for d in node_dirs {
+        scan(std::path::Path::new(&format!("{}/nodes/{d}", root_dir())));
     }
     let v: Vec<String> = counts.iter().map(|(k, c)| format!("{k}={c}")).collect();
     if v.is_empty() { "-".into() } else { v.join(",") }
 }
 
 /// removes everything that carries the prefix (end of a case / of a run)
-pub fn cleanup_prefix(prefix: &str) {
+pub fn cleanup_prefix(prefix: &str, keep_global: bool) {
     let scan = |dir: &std::path::Path| {
         if let Ok(rd) = std::fs::read_dir(dir) {
             for e in rd.flatten() {
                 let nm = e.file_name().to_string_lossy().to_string();
-                if nm.starts_with(prefix) {
+                if nm.starts_with(prefix) && !(keep_global && (nm.ends_with(".global_mgmt") || nm.contains(".node_monitor"))) {
                     let _ = std::fs::remove_file(e.path());
                 }
             }
@@ -572,11 +568,24 @@ pub struct World {
     ports: HashMap<usize, (Box<dyn Any>, (usize, String))>,
     creator_settings: HashMap<u128, String>,
     touched: Vec<(usize, String)>,
+    /// the service the last call was about (the lifetime oracle looks at it after the call; at `list` at all)
+    last_key: Option<(usize, String)>,
+    /// the final `ls` of the case showed leftovers (or there was none)
+    dirty: bool,
 }
+
+static LIVE_WORLDS: std::sync::atomic::AtomicUsize = std::sync::atomic::AtomicUsize::new(0);
 
 impl World {
     fn new() -> World {
         let k = CASE_COUNTER.fetch_add(1, std::sync::atomic::Ordering::Relaxed);
+        if LIVE_WORLDS.fetch_add(1, std::sync::atomic::Ordering::Relaxed) > 0 {
+            // the previous case ended in a panic and its world was leaked by `run_cases`: remove what it left
+            // behind (everything but the files of its still existing nodes), the cases share one prefix
+            LIVE_WORLDS.store(1, std::sync::atomic::Ordering::Relaxed);
+            cleanup_prefix(&format!("vs{}_", std::process::id()), true);
+            let _ = std::fs::remove_dir_all(format!("{}/services", root_dir()));
+        }
         // one config prefix (and root directory) per process; service names are unique per case
         let prefix = format!("vs{}_", std::process::id());
         World {
@@ -590,6 +599,8 @@ impl World {
             ports: HashMap::new(),
             creator_settings: HashMap::new(),
             touched: vec![],
+            last_key: None,
+            dirty: true,
         }
     }
     fn name(&self, s: usize) -> ServiceName {
@@ -599,8 +610,8 @@ impl World {
         self.handles.values().filter(|e| &e.key == key).count() + self.ports.values().filter(|(_, k)| k == key).count()
     }
     /// property (c) on the implementation alone
-    fn lifetime_oracle(&self) {
-        for key in &self.touched {
+    fn lifetime_oracle(&self, only: Option<&(usize, String)>) {
+        for key in self.touched.iter().filter(|k| only.map(|o| o == *k).unwrap_or(true)) {
             let ex = S::does_exist(&self.name(key.0), &self.config, pattern_of(&key.1));
             let users = self.users(key);
             match ex {
@@ -617,6 +628,7 @@ impl World {
         self.nodes.clear();
     }
     fn exec(&mut self, t: &[&str]) -> String {
+        self.last_key = None;
         match t[0] {
             "node" => {
                 let l = n(t[1]);
@@ -660,6 +672,7 @@ impl World {
                 if !self.touched.contains(&key) {
                     self.touched.push(key.clone());
                 }
+                self.last_key = Some(key.clone());
                 match call(node, &self.name(s), pat, &r, mode) {
                     Ok(h) => {
                         let st = h.settings();
@@ -684,6 +697,7 @@ impl World {
             }
             "drop" => match self.handles.remove(&n(t[1])) {
                 Some(e) => {
+                    self.last_key = Some(e.key.clone());
                     drop(e);
                     "ok".into()
                 }
@@ -698,6 +712,7 @@ impl World {
                 match self.handles.get(&hl) {
                     Some(e) => match e.h.port(t[3]) {
                         Ok(p) => {
+                            self.last_key = Some(e.key.clone());
                             self.ports.insert(pl, (p, e.key.clone()));
                             "ok".into()
                         }
@@ -708,6 +723,7 @@ impl World {
             }
             "dport" => match self.ports.remove(&n(t[1])) {
                 Some(p) => {
+                    self.last_key = Some(p.1.clone());
                     drop(p);
                     "ok".into()
                 }
@@ -746,10 +762,12 @@ impl World {
                 v.sort();
                 if v.is_empty() { "-".into() } else { v.join("|") }
             }
-            "ls" => list_files(&self.prefix),
+            "ls" => list_files(&self.prefix, &self.node_dirs),
             "end" => {
                 self.drop_all();
-                list_files(&self.prefix)
+                let r = list_files(&self.prefix, &self.node_dirs);
+                self.dirty = r != "-";
+                r
             }
             _ => "bad-op".into(),
         }
@@ -759,6 +777,10 @@ impl World {
 impl Drop for World {
     fn drop(&mut self) {
         self.drop_all();
+        LIVE_WORLDS.fetch_sub(1, std::sync::atomic::Ordering::Relaxed);
+        if self.dirty {
+            cleanup_prefix(&self.prefix, true);
+        }
         for d in &self.node_dirs {
             let _ = std::fs::remove_dir_all(format!("{}/nodes/{d}", root_dir()));
         }
@@ -784,8 +806,10 @@ impl Comp for SvcComp {
             None => "no-world".into(),
             Some(w) => {
                 let r = w.exec(t);
-                if t[0] != "end" {
-                    w.lifetime_oracle();
+                if t[0] == "list" || t[0] == "dnode" {
+                    w.lifetime_oracle(None);
+                } else if let Some(k) = w.last_key.clone() {
+                    w.lifetime_oracle(Some(&k));
                 }
                 r
             }
